@@ -76,6 +76,37 @@ def gen_cases(rng, tier, scale):
     ]
     for k, (t, parts, d, exp) in enumerate(fixed):
         cases.append(rcase(f'f{k}', t, d, partials=parts, entry=0, kind='fixed', exp=exp, grp=f'f{k}', tags=['fixed']))
+    # nested call forms: outer form x inner form, the inner partial must see the context designated by the outer call
+    D = {'a': 1, 'b': 2, 'k': 0, 'c': {'a': 10, 'b': 20, 'c': {'a': 100, 'b': 200}}, 'l': [{'a': 5, 'b': 6}]}
+    def fmt(ctx):
+        g = lambda k_: '' if not isinstance(ctx, dict) or ctx.get(k_) is None else (str(ctx[k_]) if not isinstance(ctx[k_], dict) else '[object]')
+        return '(%s,%s,%s)' % (g('a'), g('b'), g('k'))
+    FORMS = {
+        'plain': ('{{> %s}}', lambda c: c),
+        'ctx': ('{{> %s c}}', lambda c: c.get('c') if isinstance(c, dict) else None),
+        'hash': ('{{> %s k=7}}', lambda c: merge(c, {'k': 7})),
+        'ctxhash': ('{{> %s c k=8}}', lambda c: merge(c.get('c') if isinstance(c, dict) else None, {'k': 8})),
+        'with': ('{{#with c}}{{> %s}}{{/with}}', lambda c: c.get('c') if isinstance(c, dict) else None),
+        'withsub': ('{{#with (lookup this "c")}}{{> %s}}{{/with}}', lambda c: c.get('c') if isinstance(c, dict) else None),
+        'eachlit': ('{{#each l}}{{> %s}}{{/each}}', lambda c: c['l'][0] if isinstance(c, dict) and 'l' in c else None),
+        'pblock': ('{{#> wrap c}}{{> %s}}{{/wrap}}', lambda c: c.get('c') if isinstance(c, dict) else None),
+        'inline': ('{{#*inline "il"}}{{> %s}}{{/inline}}{{> il c}}', lambda c: c.get('c') if isinstance(c, dict) else None),
+    }
+    kk = 0
+    for of, (osrc, octx) in FORMS.items():
+        for inf, (isrc, ictx) in FORMS.items():
+            if inf in ('pblock', 'inline') or of == 'eachlit' and inf == 'eachlit':
+                continue
+            mid_ctx = octx(D)
+            if mid_ctx is None or (inf in ('ctx', 'ctxhash', 'with', 'withsub') and not (isinstance(mid_ctx, dict) and 'c' in mid_ctx)) \
+               or (inf == 'eachlit' and not (isinstance(mid_ctx, dict) and 'l' in mid_ctx)):
+                continue
+            show_ctx = ictx(mid_ctx)
+            parts = {'show': '({{a}},{{b}},{{k}})', 'mid': 'm' + (isrc % 'show'), 'wrap': '{{> @partial-block}}'}
+            tpl = osrc % 'mid'
+            cases.append(rcase(f'n{kk}', tpl, D, partials=parts, entry=0, kind='fixed', exp=('ok', 'm' + fmt(show_ctx)), grp=f'n{kk}',
+                               tags=['nested:' + of + '/' + inf]))
+            kk += 1
     # the two witnesses of findings F3 and F4
     cases.append(rcase('f3w', '{{#> p}}D{{/p}}', {}, partials={'p': '<{{> @partial-block}}{{> @partial-block}}>'}, entry=0,
                        kind='fixed', exp=('ok', '<DD>'), grp='f3w', tags=['F3']))
